@@ -53,9 +53,15 @@ type cfg struct {
 	receivers   int
 	doubleClose bool
 	horizon     time.Duration
+	// backlog: nobody receives; the peer's messages pile up in the stack (every receive worker
+	// is parked holding one) before Close is called
+	backlog bool
 }
 
 func (c cfg) name() string {
+	if c.backlog {
+		return fmt.Sprintf("%s-backlog-dc%v", c.stack.Kind, c.doubleClose)
+	}
 	return fmt.Sprintf("%s-r%d-dc%v", c.stack.Kind, c.receivers, c.doubleClose)
 }
 
@@ -108,11 +114,21 @@ func scenario(c cfg, pb int) *explore.Scenario {
 		// set-up interleavings are not the subject: let every thread reach its blocking
 		// point, then explore the race between the in-flight message, Close and late calls
 		x.Settle()
-		vrt.Go("sender", func() {
-			// more than one fragment where the stack fragments (inner MTUs 40 / 64)
-			err := peer.Tell(sendCtx, 0, p2p.IOVec{[]byte("hello-close-" + strings.Repeat("x", 58))})
-			l.add(ev{Kind: "tell-ret", Who: "sender", Err: errs(err)})
-		})
+		if c.backlog {
+			x.NoBranch = true
+			for k := 0; k < 3; k++ {
+				peer.Tell(sendCtx, 0, p2p.IOVec{[]byte(fmt.Sprintf("backlog-%d", k))})
+				x.Settle()
+			}
+			x.NoBranch = false
+		}
+		if !c.backlog {
+			vrt.Go("sender", func() {
+				// more than one fragment where the stack fragments (inner MTUs 40 / 64)
+				err := peer.Tell(sendCtx, 0, p2p.IOVec{[]byte("hello-close-" + strings.Repeat("x", 58))})
+				l.add(ev{Kind: "tell-ret", Who: "sender", Err: errs(err)})
+			})
+		}
 		vrt.Go("closer", func() {
 			vrt.PointAlways("close")
 			l.add(ev{Kind: "close-call"})
@@ -294,6 +310,9 @@ func main() {
 			h = 1 * time.Second
 		}
 		scs = append(scs, scenario(cfg{stack: mk(k), receivers: 1, horizon: h}, pb))
+		if k == "frag" || k == "mbapp" || k == "p2pke" || k == "mux-string" || run.Thorough() {
+			scs = append(scs, scenario(cfg{stack: mk(k), receivers: 0, backlog: true, horizon: h}, pb))
+		}
 		if run.Thorough() {
 			scs = append(scs, scenario(cfg{stack: mk(k), receivers: 2, doubleClose: true, horizon: h}, pb))
 		}
